@@ -297,7 +297,9 @@ DyRemote(kinds, chain, hk, fin) ==
              \o [j \in 1..K |-> [uri |-> URI("http", "h1", TRUE, <<RN[j]>>), s |-> DyRes(j, kinds, chain, hk, fin, FALSE)]]]
 DyCases(z) ==
   UNION {{DyEmbedded(kinds, chain, hk, fin), DyRemote(kinds, chain, hk, fin)} :
-           kinds \in [1..(K + 1) -> DyKinds], chain \in DyChains, hk \in {"ref", "dref", "allOf", "inner"}, fin \in DyFinals}
+           \* (K >= 3: reduced alphabets keep the family enumerable)
+           kinds \in [1..(K + 1) -> IF K >= 3 THEN {"dyn", "none"} ELSE DyKinds], chain \in DyChains,
+           hk \in IF K >= 3 THEN {"ref", "inner"} ELSE {"ref", "dref", "allOf", "inner"}, fin \in DyFinals}
 DyVals == {Num(Mark[i]) : i \in 1..(K + 1)} \cup {Str("a")}
 
 \* ------------------------------------------------------------ selection
